@@ -1,8 +1,9 @@
 """Shared check for C10 / C11 / C12: a relation tagged with a BYODS provider behaves as its explicit closure."""
 import json
+import os
 import random
 
-from vlib import core, pipeline as P, diffrun
+from vlib import core, pipeline as P, diffrun, sanitize
 from vgen import gen as G, emit as E, byods as B
 
 LEVEL = 'exploration'
@@ -102,6 +103,45 @@ def run_provider(ctx, provider, par_ok, only=None):
     # combination of bound and free columns": violation, not inconclusive
     diffrun.run_cases(ctx, cases, on_ok=on_ok, closure=False, compile_fail_violation=lambda c, vname: True)
     ctx.cov['schedule_shapes_held'] = shapes
+    if (ctx.tier == 'thorough' or os.environ.get('VERIF_SAN')) and not only:
+        # ASan on the schedule family (transmute in ref_to_singleton_tuple_ref, IteratorFromDyn, raw hash-table juggling)
+        sub = []
+        for c in cases[:2] + cases[2:8]:
+            c2 = P.Case(c.name + 'as', c.ref_prog, [v for v in c.variants if not v.par], meta=c.meta)
+            for j in c.jobs[:60]:
+                if not j.variant.par:
+                    c2.jobs.append(P.Job(j.id + '_as', c2, j.variant, j.input_rows, meta=j.meta))
+            sub.append(c2)
+        ctx.cov['asan'] = sanitize.run_cases_san(ctx, sub, 'asan', on_ok=on_ok, compile_fail_violation=lambda c, vname: True)
+        # Miri on the two schedule programs with three tiny schedules each (serial)
+        mc = []
+        for c in cases[:2]:
+            v = [v for v in c.variants if not v.par][0]
+            c2 = P.Case(c.name + 'mi', c.ref_prog, [v], meta=c.meta)
+            small = sorted([j for j in c.jobs if not j.variant.par], key=lambda j: len(j.input_rows))[:3]
+            for j in small:
+                c2.jobs.append(P.Job(j.id + '_mi', c2, v, j.input_rows, meta=j.meta))
+            mc.append(c2)
+        reports = sanitize.miri_workspace(ctx, mc)
+        held = 0
+        from vgen import ref as R, gen as G
+        for c in mc:
+            for j in c.jobs:
+                if j.result and j.result.reps and not j.result.panics:
+                    db, _ = R.evaluate(c.ref_prog, G.input_to_dict(j.input_rows))
+                    if not P.compare_step_to_db(c.ref_prog, j.result.reps[0][1][-1], db):
+                        held += 1
+                        ctx.evaluations += 1
+                    else:
+                        ctx.violation('miri_' + j.id, {'case': c.name, 'summary': 'result under Miri differs from the reference'}, dict(c.meta.get('facts', {}), kind='diff'))
+        for (si, in_flight, err) in reports:
+            if err.startswith('INCOMPLETE'):
+                ctx.inconc('Miri run incomplete (shard %d): %s' % (si, err[-300:]))
+            elif '/repo/' in err:
+                ctx.violation('miri_ub_%d' % si, {'case': 'miri', 'report': err.split('\n')[-60:], 'summary': 'Miri: undefined behaviour with a frame in /repo'}, {'kind': 'miri_ub', 'provider': provider})
+            else:
+                ctx.inconc('Miri report without a /repo frame: %s' % err[-300:])
+        ctx.cov['miri'] = {'programs': len(mc), 'executions_held': held, 'reports': len(reports), 'flags': sanitize.MIRI_FLAGS}
 
 
 def replay_provider(ctx, provider, par_ok, path):
